@@ -71,4 +71,24 @@ CHECKS["C17"] = {
             "Suite: FixedIncomeStrategy backtests over all five classes with coupons, asymmetric costs, SetNotional schedules, close/roll tables; oracles on notional rows, "
             "index rows and the cash ledger (carry paid on the next date).",
     "note": COMMON_NOTE + " Rebalance-to-notional targets are decided by correspondence (trace of temp weights + positions), not by a theorem; FixedIncomeSecurity.fixed_income is False in bt (sized by market value): behaviour is modelled as is."}
+CHECKS["C06"] = {
+    "text": "Theorems: one rebalance allocation (weight - current weight) x base, with fractional positions and no costs, leaves the child's marked value at exactly "
+            "w x parent value whatever the prior position, charging the parent exactly the amount; a zero target / non-target child is closed completely through the "
+            "close-out shortcut (any commission). Correspondence: whole backtests (Rebalance, cash fractions via base scaling, sub-strategy targets, RebalanceOverTime, "
+            "successive rebalances) and engine histories with update=False chains, bit-exact; oracle: after every Rebalance of a fractional cost-free run each targeted "
+            "child sits at its weight, every other child is closed and the remainder is cash.",
+    "note": COMMON_NOTE + " The whole-tree statement (all children at once, sub-strategy targets, integer positions within one unit, RebalanceOverTime in n steps) is decided by correspondence + oracle, not yet by theorems."}
+CHECKS["C14"] = {
+    "text": "Theorems: the tradability filter shared by SelectAll / SelectThese / SelectWhere returns exactly the requested names with a present and (by default) positive current "
+            "price, in order, and errors on a name outside the universe; hence with default flags nothing selected has a missing, zero or negative price; ranked selection: the "
+            "ranking is a permutation of the candidates sorted by the statistic and the n kept are the n best (worst when ascending). Correspondence: per-run traces of "
+            "temp['selected'] and temp['stat'] for every strategy of every generated backtest, bit-exact against the interpreter (SelectAll/These/HasData/N/Momentum/Where/Regex/Types/Active, "
+            "SetStat, StatTotalReturn incl. lookback and lag windows); oracle: tradability, universe membership, top-n. SelectRandomly / SelectRegex: post-condition suite on the real code.",
+    "note": COMMON_NOTE + " random.sample and re.search are oracles (post-conditions tested, not proved); ResolveOnTheRun is not modelled."}
+CHECKS["C15"] = {
+    "text": "Theorems: WeighEqually gives one entry per selected ticker, all equal, summing to one; LimitDeltas moves a target by at most the limit and leaves targets inside the "
+            "band untouched. Correspondence: per-run traces of temp['weights'] (WeighEqually / Specified / Target, ScaleWeights, LimitDeltas, LimitWeights incl. ffn's input checks) "
+            "bit-exact against the interpreter; oracle on the traces (documented weights). WeighInvVol / ERC / MeanVar / Randomly, TargetVol and PTE_Rebalance: documented "
+            "post-conditions recomputed with numpy over the documented [now - lag - lookback, now - lag] window on the real code (this found and fixed the TargetVol defect).",
+    "note": COMMON_NOTE + " ffn / sklearn / scipy kernels are oracles: their post-conditions are tested, not proved; limit_weights' cap-and-total statement is decided by oracle + correspondence."}
 NOT_APPLICABLE = {}
